@@ -251,6 +251,7 @@ pub fn main(spec_path: &str) {
     let mut printers_late = false;
     let mut linger = false;
     let mut key_delay_ms = 0u64;
+    let mut color_mode = rustyline::ColorMode::Enabled;
     let mut binds: Vec<(Vec<KeyEvent>, Cmd)> = Vec::new();
     let mut sqlite: Option<String> = None;
     let mut history2: Vec<String> = Vec::new();
@@ -305,6 +306,11 @@ pub fn main(spec_path: &str) {
             "prompt_limit" => prompt_limit = t[1].parse().unwrap(),
             "show_all" => show_all = t[1] == "1",
             "bell" => bell = t[1] == "1",
+            "color_mode" => color_mode = match t[1] {
+                "disabled" => rustyline::ColorMode::Disabled,
+                "forced" => rustyline::ColorMode::Forced,
+                _ => rustyline::ColorMode::Enabled,
+            },
             "bind" => binds.push((parse_keys(t[1]), parse_cmd(&t[2..]))),
             // an SQLite history at this path: `history` lines are entered by an earlier session (the database is then
             // closed and reopened), `history2` lines by the session the reads run in
@@ -403,6 +409,7 @@ pub fn main(spec_path: &str) {
         .completion_show_all_if_ambiguous(show_all)
         .bell_style(if bell { rustyline::config::BellStyle::Audible } else { rustyline::config::BellStyle::None })
         .edit_mode(mode)
+        .color_mode(color_mode)
         .completion_type(completion)
         .keyseq_timeout(timeout)
         .auto_add_history(auto_add)
